@@ -932,6 +932,15 @@ theorem ctxGet_insert_below_top (U : Ctx) (top e : Layer) (i : Nat) (d : Str) (v
     simp only [insertAt, List.take_append_of_le_length hi, List.drop_append_of_le_length hi, List.append_assoc, List.cons_append]
   rw [this, ctxGet_append_one, ht]
 
+theorem ctxGet_cons_none (l : Layer) (B : Ctx) (k : Str) (h : lookupL k l = none) : ctxGet (l :: B) k = ctxGet B k := by
+  unfold ctxGet
+  simp only [List.foldl_cons, h]
+
+theorem ctxGet_insert_none (i : Nat) (e : Layer) (c : Ctx) (k : Str) (h : lookupL k e = none) :
+    ctxGet (insertAt i e c) k = ctxGet c k := by
+  have : insertAt i e c = c.take i ++ (e :: c.drop i) := by simp [insertAt]
+  rw [this, ctxGet_append, ctxGet_cons_none e _ k h, ← ctxGet_append, List.take_append_drop]
+
 /-- `SlotNode.render` on an instance of the fragment: what is rendered, in which context — or the reason nothing is.
 `nm` is the name the slot tag resolves to. -/
 theorem slot_unfolds (env : Env) (n : Nat) (nameE : Expr) (isRequired : Bool) (data : List (Str × Expr)) (body : List Node)
@@ -944,6 +953,8 @@ theorem slot_unfolds (env : Env) (n : Nat) (nameE : Expr) (isRequired : Bool) (d
           (renderSlot env (n + 1) nameE false isRequired data body ctx).run.run w = (renderNodes env n body c3).run.run w) ∨
        (∃ f, sGet (slotNameOf (evalExpr ctx nameE)) cc.fills = some f ∧
           (∀ d, f.dataVar = some d → ctxGet c3 d = some (.dict (evalKwargs ctx data))) ∧
+          (∀ k, internal k = false → k ≠ compVarsKey → f.dataVar ≠ some k → lookupL k f.extra = none →
+            ctxGet c3 k = ctxGet (if env.isolated then cc.outer.getD [] else ctx) k) ∧
           (renderSlot env (n + 1) nameE false isRequired data body ctx).run.run w = (renderNodes env n f.nodes c3).run.run w))) := by
   by_cases hdeep : (evalKwargs ctx data).any (fun kv => tooDeep 10 kv.2) = true
   · left; exact ⟨.budget, by unfold renderSlot; simp only [hdeep, ↓reduceIte, run_bind, run_throw]⟩
@@ -1061,13 +1072,15 @@ theorem slot_unfolds (env : Env) (n : Nat) (nameE : Expr) (isRequired : Bool) (d
       · exact hocf
       · exact hc
     have hmain : ∃ c3, ctxFree c3 = true ∧ (∀ d, f.dataVar = some d → ctxGet c3 d = some (.dict (evalKwargs ctx data))) ∧
+        (∀ k, internal k = false → k ≠ compVarsKey → f.dataVar ≠ some k → lookupL k f.extra = none →
+            ctxGet c3 k = ctxGet (if env.isolated then oc else ctx) k) ∧
         (renderSlot env (n + 1) nameE false isRequired data body ctx).run.run w = (renderNodes env n f.nodes c3).run.run w := by
       unfold renderSlot
       simp only [hdeep, hext, Bool.false_eq_true, ↓reduceIte, run_bind, run_pure, hcid, run_get, hcc, hdyn,
         slotChecks_named, ne_eq, not_true_eq_false, hh, Bool.not_true, hoc, Option.isNone_some, Bool.and_false, Bool.false_and,
         hfill, requiredCheck, Option.isNone_some, Bool.and_self, Bool.true_and, Bool.not_false, Option.getD_some, Option.isSome_some,
         hfc, hfd]
-      refine ⟨_, ?_, ?_, rfl⟩
+      refine ⟨_, ?_, ?_, ?_, rfl⟩
       rotate_left
       · -- the slot's data under the alias the fill asked for
         intro d hd
@@ -1080,6 +1093,57 @@ theorem slot_unfolds (env : Env) (n : Nat) (nameE : Expr) (isRequired : Bool) (d
           omega
         · refine ctxGet_insert_below_top _ _ _ _ d _ ?_ (lookupL_setL_same ..)
           simp only [List.length_append, List.length_cons, List.length_nil]; omega
+      · -- every other name a template can use: as in the context the fill is rendered in
+        intro k hk hkv hkd hke
+        have hU : ∀ (U : Ctx) (b : Layer), (∀ x, lookupL x b ≠ none → x = compKey ∨ x = compVarsKey) →
+            ctxGet (U ++ [updateL b (injectKeysOf ctx)]) k = ctxGet U k := by
+          intro U b hb
+          rw [ctxGet_append_one, extra_lookup2 b ctx k hk hkv hb]
+        have hpair : ∀ (v v2 : Val) (x : Str), lookupL x [(compKey, v), (compVarsKey, v2)] ≠ none → x = compKey ∨ x = compVarsKey := by
+          intro v v2 x h1
+          simp only [lookupL] at h1
+          split at h1
+          · rename_i e1; exact Or.inl e1.symm
+          · split at h1
+            · rename_i e2; exact Or.inr e2.symm
+            · exact absurd rfl h1
+        split
+        · rw [ctxGet_insert_none _ _ _ _ hke]
+          split
+          · rename_i d hd
+            rw [ctxGet_setTop_ne _ _ _ _ (fun e => hkd (by rw [hd, e]))]
+            refine hU _ _ ?_
+            intro x h1
+            split at h1
+            · cases hg : ctxGet oc compKey with
+              | none => simp [hg, lookupL] at h1
+              | some v => rw [hg] at h1; exact hpair _ _ x h1
+            · simp [lookupL] at h1
+          · refine hU _ _ ?_
+            intro x h1
+            split at h1
+            · cases hg : ctxGet oc compKey with
+              | none => simp [hg, lookupL] at h1
+              | some v => rw [hg] at h1; exact hpair _ _ x h1
+            · simp [lookupL] at h1
+        · rw [ctxGet_insert_none _ _ _ _ hke]
+          split
+          · rename_i d hd
+            rw [ctxGet_setTop_ne _ _ _ _ (fun e => hkd (by rw [hd, e]))]
+            refine hU _ _ ?_
+            intro x h1
+            split at h1
+            · cases hg : ctxGet oc compKey with
+              | none => simp [hg, lookupL] at h1
+              | some v => rw [hg] at h1; exact hpair _ _ x h1
+            · simp [lookupL] at h1
+          · refine hU _ _ ?_
+            intro x h1
+            split at h1
+            · cases hg : ctxGet oc compKey with
+              | none => simp [hg, lookupL] at h1
+              | some v => rw [hg] at h1; exact hpair _ _ x h1
+            · simp [lookupL] at h1
       have hdict : slotFree (Val.dict (evalKwargs ctx data)) = true := by
         simp only [slotFree]; exact evalKwargs_free ctx hc data
       have hc1 : ctxFree (match f.dataVar with
@@ -1099,8 +1163,9 @@ theorem slot_unfolds (env : Env) (n : Nat) (nameE : Expr) (isRequired : Bool) (d
       split
       · exact ctxFree_insert _ _ _ hc1 hfe
       · exact ctxFree_insert _ _ _ hc1 hfe
-    obtain ⟨c3, h1, h2, h3⟩ := hmain
-    exact ⟨cid, cc, c3, hcid, hcc, h1, Or.inr ⟨f, hfill, h2, h3⟩⟩
+    obtain ⟨c3, h1, h2, h4, h3⟩ := hmain
+    refine ⟨cid, cc, c3, hcid, hcc, h1, Or.inr ⟨f, hfill, h2, ?_, h3⟩⟩
+    rw [hoc]; exact h4
 
 theorem stmt_node (env : Env) (n : Nat) (ih : Stmt env n) :
     ∀ nd ctx w toks w', tnode nd = true → ctxFree ctx = true → WInv w →
@@ -1180,7 +1245,7 @@ theorem stmt_slot (env : Env) (n : Nat) (ih : Stmt env n) :
   · rw [he] at h
     obtain ⟨rfl, rfl⟩ := ok_inj h
     exact Bal.refl env w
-  · rcases hcase with ⟨_, _, he⟩ | ⟨f, hf, _, he⟩
+  · rcases hcase with ⟨_, _, he⟩ | ⟨f, hf, _, _, he⟩
     · rw [he] at h
       exact ih.nodes body c3 w toks w' hb hc3 hw h
     · rw [he] at h
